@@ -21,11 +21,14 @@ import (
 	"verifharness/internal/zoo"
 )
 
+// hotNames: types with unusual tags or member kinds, picked more often.
+var hotNames = map[string]bool{"Tags": true, "Kinds": true, "OmitKinds": true, "Graded": true}
+
 func zooSchema() *qgen.Schema {
 	s := &qgen.Schema{}
 	for _, e := range zoo.Entries {
 		td := qgen.TypeDesc{Name: e.Name, Kind: e.Kind, Tags: e.Tags, Rare: e.Bad,
-			Hot: !e.Bad && embedDepth(e.Type, 0) >= 3}
+			Hot: !e.Bad && (embedDepth(e.Type, 0) >= 3 || hotNames[e.Name])}
 		if e.Kind == "slice" {
 			et := e.Type.Elem()
 			if et.Kind() == reflect.Pointer {
